@@ -111,6 +111,32 @@ pub fn case(seed: u64, st: &mut Stats) {
             st.count("spec.user-defined-help-subcommand");
         }
     }
+    // the empty string is a name like any other: a subcommand called `""` (or with that alias) is
+    // named by an empty token
+    if rng.chance(1, 10) {
+        fn empty_name(rng: &mut Rng, c: &mut CmdSpec) -> bool {
+            if !c.subs.is_empty() && rng.coin() {
+                if !c.subs.iter().any(|s| s.name.is_empty() || s.aliases.iter().any(|(a, _)| a.is_empty())) {
+                    let i = rng.below(c.subs.len());
+                    if rng.coin() {
+                        c.subs[i].name = String::new();
+                    } else {
+                        c.subs[i].aliases.push((String::new(), rng.coin()));
+                    }
+                    return true;
+                }
+            }
+            for s in c.subs.iter_mut() {
+                if empty_name(rng, s) {
+                    return true;
+                }
+            }
+            false
+        }
+        if empty_name(&mut rng, &mut spec) {
+            st.count("spec.subcommand-with-empty-name-or-alias");
+        }
+    }
     let cmd = match gate(&spec) {
         Ok(c) => c,
         Err(p) => {
